@@ -7,6 +7,11 @@
  * neighbouring grid samples" (a consequence of continuity + the limit on the next derivative, which
  * also sees a jump at an instant that is not one of the recorded boundaries).
  *
+ * Besides the single requests on a zeroed / garbage-filled / previously used context, every case runs two-call sequences on ONE context
+ * in which the second request is built from the fields the first plan recorded (replan_sequence(), seeded change C14-J): it is judged
+ * as a request of its own against ITS limits, and - like every judged request - by the twin clause twin_fresh(): the same arguments
+ * planned on a fresh garbage-filled context must give bitwise the same duration, fields and samples.
+ *
  * Tolerances.  The property states none, so a clause is refuted only beyond C*unit with
  *   unit_p = eps*S_p + vhat*dt,  S_p = |p0|+|p1|+vhat*T+vhat^2/alo (+ vhat*ahat/jhat for bell)
  *   unit_v = eps*S_v + ahat*dt,  S_v = vhat+ahat*T
@@ -54,6 +59,7 @@
 #define C_TRAP 16.0
 #define C_BELL 256.0
 #define REQ_PER_CASE 64
+#define REPLAN_PER_CASE 4 /* sequences "first plan, then a second request read back from the context" per case */
 #define N_UNIFORM 300
 #define N_RANDOM 100
 
@@ -123,6 +129,8 @@ typedef struct
     double up, uv, ua, ut; /* unit tolerances */
     double uvl; /* unit tolerance of the velocity-limit clause */
     double C;
+    char const *prior; /* what the context held before the judged call */
+    int replan; /* 0: ordinary request; 1 + variant: second request on a used context, built from the fields the first plan recorded */
 } prof;
 
 static char const *req_text(prof const *q, char *buf, size_t n)
@@ -157,8 +165,10 @@ static void judge(prof const *q, int cl, double err, double unit, double x, char
     if (!(err <= q->C * unit))
     {
         char key[96], rq[640];
-        snprintf(key, sizeof(key), "%s/%s/%s", gen_name[g], cl_name[cl], branch_name[g][q->branch]);
-        vf_viol(key, "%s: %s at x=%a (%.17g), T=%a: got %.17g, expected %.17g, excess %.6g > %g*(%.6g) [ratio %.4g; eps*S part p=%.3g v=%.3g a=%.3g, dt=%.3g] branch=%s dir=%+d",
+        if (q->replan) { snprintf(key, sizeof(key), "%s/replan-readback/%s", gen_name[g], cl_name[cl]); }
+        else { snprintf(key, sizeof(key), "%s/%s/%s", gen_name[g], cl_name[cl], branch_name[g][q->branch]); }
+        vf_viol(key, "%s%s: %s at x=%a (%.17g), T=%a: got %.17g, expected %.17g, excess %.6g > %g*(%.6g) [ratio %.4g; eps*S part p=%.3g v=%.3g a=%.3g, dt=%.3g] branch=%s dir=%+d",
+                q->replan ? "[second request on a used context, built from the fields the first plan recorded] " : "",
                 req_text(q, rq, sizeof(rq)), what, x, x, q->T, got, want, err, q->C, unit, ratio,
                 EPS * q->Sp, EPS * q->Sv, EPS * q->Sa, q->dt, branch_name[g][q->branch], q->dir);
     }
@@ -483,15 +493,101 @@ static void exercise_unjudged(int gen, void *ctx, double ret)
     (void)sink;
 }
 
-static uint64_t seen_sample; /* bit per (gen, branch) written out as a sample */
 
-static void run_request(int gen, double const in[7], vf_rng *r)
+/* ------------------------------------------------------------------ twin clause: a plan is a function of the request only
+ * The same request is planned once more on a fresh exact-size context filled with garbage (0xA5.. = -1.2e-129 as double); the judged
+ * context was zeroed, 0x47-filled, used by an unrelated cruise plan or - read-back requests, see replan_sequence() - used by the very plan
+ * the arguments were read from.  Returned duration, every recorded field and pos/vel/acc/jer at a few instants (read-back requests: the
+ * phase boundaries and 8 interior instants) must agree bitwise.  No tolerance is involved: on the unchanged tree every path of both generators that returns a positive
+ * duration stores all 12 / 14 fields from the arguments, so nothing of the previous contents survives a successful call (only applied to
+ * requests inside the domain for which the call on the judged context returned a positive duration - what a declined call leaves in the
+ * context is outside the property). */
+static char const *const fld_name[2][14] = {{"t", "p0", "p1", "v0", "v1", "vc", "ta", "td", "pa", "pd", "ac", "de", "", ""},
+                                            {"t", "tv", "ta", "td", "taj", "tdj", "p0", "p1", "v0", "v1", "vm", "jm", "am", "dm"}};
+static void twin_fresh(prof const *q, double ret)
+{
+    int const g = q->gen;
+    size_t const n = g ? sizeof(a_trajbell) : sizeof(a_trajtrap);
+    void *fresh = malloc(n);
+    void const *used = g ? (void const *)q->tb : (void const *)q->tt;
+    double const *fu = (double const *)used, *ff = (double const *)fresh;
+    char key[96], rq[640];
+    double ret2;
+    prof f = *q;
+    memset(fresh, 0xA5, n);
+    ret2 = call_gen(g, fresh, q->in);
+    f.tt = (a_trajtrap *)fresh;
+    f.tb = (a_trajbell *)fresh;
+    if (q->replan) { VF_COUNT("replan-readback-twin-fresh-context"); }
+    else { VF_COUNT("twin-fresh-context"); }
+    snprintf(key, sizeof(key), "%s/%s/differs-from-fresh-context", gen_name[g], q->replan ? "replan-readback" : "prior-context-state");
+    if (memcmp(&ret, &ret2, sizeof(ret)))
+    {
+        vf_viol(key, "%s returned %a (%.17g) on a context %s, but %a (%.17g) on a fresh garbage-filled context: the result depends on what the context held before the call",
+                req_text(q, rq, sizeof(rq)), ret, ret, q->prior, ret2, ret2);
+        goto out;
+    }
+    if (memcmp(used, fresh, n))
+    {
+        for (size_t i = 0; i < n / sizeof(double); ++i)
+        {
+            if (!memcmp(fu + i, ff + i, sizeof(double))) { continue; }
+            vf_viol(key, "%s (duration %a): recorded field %s = %a (%.17g) on a context %s, but %a (%.17g) when planned on a fresh garbage-filled context: the plan depends on what the context held before the call",
+                    req_text(q, rq, sizeof(rq)), ret, fld_name[g][i], fu[i], fu[i], q->prior, ff[i], ff[i]);
+            break;
+        }
+        goto out;
+    }
+    /* samples: all boundaries + 8 instants for the read-back requests, 4 instants for the ordinary ones (the evaluators take a const context:
+       with bitwise equal fields this can only differ if an evaluator had state of its own) */
+    for (int i = q->replan ? 0 : q->nb + 4; i < q->nb + 8; ++i)
+    {
+        double x = i < q->nb ? q->b[i] : ret * ((i - q->nb) + 0.5) / 8;
+        samp a = eval_at(q, x), b = eval_at(&f, x);
+        if (memcmp(&a, &b, sizeof(a)))
+        {
+            vf_viol(key, "%s: pos/vel/acc/jer at x=%a are %a %a %a %a on a context %s, but %a %a %a %a on a fresh garbage-filled context with bitwise the same fields",
+                    req_text(q, rq, sizeof(rq)), x, a.p, a.v, a.a, a.j, q->prior, b.p, b.v, b.a, b.j);
+            break;
+        }
+    }
+out:
+    free(fresh);
+}
+
+static int trap_branch(a_trajtrap const *c)
+{
+    if (c->ta == 0 && c->td == 0) { return TB_DECEL; }
+    if (c->ta == c->td && c->td == c->t) { return TB_ACCEL; }
+    if (c->ta == c->td) { return TB_ACCDEC; }
+    return TB_CRUISE;
+}
+static int bell_branch(a_trajbell const *c, double am)
+{
+    if (c->tv > 0) { return BB_CRUISE; }
+    if (c->ta == 0 && c->taj == 0) { return BB_DECEL; }
+    if (c->td == 0 && c->tdj == 0) { return BB_ACCEL; }
+    if (c->am == am) { return BB_AMAX; }
+    return BB_REDUCED;
+}
+
+enum { RV_EXACT, RV_LIMIT_X2, RV_LIMIT_HALF, RV_LIMIT_ULP, RV_P1_MOVED, RV_V1_CHANGED, RV_LIMITS_NEW_MOVE, RV_BRAKE_SIDE, RV_ORIG_ONE_LIMIT, RV_N };
+static char const *const rv_name[RV_N] = {"exact", "one-limit-x2", "one-limit-x0.5", "one-limit-1ulp", "p1-moved", "v1-changed", "limits-only-new-move",
+                                          "braking-side-as-accel-limit", "original-with-one-limit-read-back"};
+
+static uint64_t seen_sample; /* bit per (gen, branch) written out as a sample; bit 63: a read-back request */
+
+/* used != NULL: the request is a SECOND request on a context that already holds a plan (image *used); its arguments were built from the
+   fields recorded by that plan (variant: how, RV_*; differs: 1 the first plan reached other limits than it had been asked for, -1 the first call was declined).  It is an
+   ordinary request in every other respect: same domain filter, same clauses against the limits of THIS request, same tolerances. */
+static void run_request(int gen, double const in[7], vf_rng *r, void const *used, int variant, int differs)
 {
     prof q;
     double ret;
     int ok;
     memset(&q, 0, sizeof(q));
     q.gen = gen;
+    q.replan = used ? 1 + variant : 0;
     memcpy(q.in, in, sizeof(q.in));
     /* exact-size heap blocks: a write past the context hits an ASan red zone */
     q.tt = (a_trajtrap *)malloc(sizeof(a_trajtrap));
@@ -499,23 +595,34 @@ static void run_request(int gen, double const in[7], vf_rng *r)
     /* the state of the context BEFORE the request must not matter: zeroed, filled with large positive garbage, or - the
        realistic case - re-used after an earlier plan with a long cruise phase (seeded change C14-E: the cruise time is only
        stored when positive, so a no-cruise plan on a re-used context keeps the previous one) */
-    switch (vf.case_no % 3 + (uint64_t)(in[3] > in[4]))
+    switch (used ? 99 : vf.case_no % 3 + (uint64_t)(in[3] > in[4]))
     {
     case 0:
         memset(q.tt, 0, sizeof(a_trajtrap));
         memset(q.tb, 0, sizeof(a_trajbell));
+        q.prior = "that was zeroed";
         VF_COUNT("context-zeroed");
         break;
     case 1:
         memset(q.tt, 0x47, sizeof(a_trajtrap)); /* 0x4747.. = 2.4e35 as double, 5.1e4 as float */
         memset(q.tb, 0x47, sizeof(a_trajbell));
+        q.prior = "that was filled with 0x47";
         VF_COUNT("context-garbage");
+        break;
+    case 99:
+        memset(q.tt, 0x47, sizeof(a_trajtrap));
+        memset(q.tb, 0x47, sizeof(a_trajbell));
+        if (gen) { memcpy(q.tb, used, sizeof(a_trajbell)); }
+        else { memcpy(q.tt, used, sizeof(a_trajtrap)); }
+        q.prior = differs < 0 ? "that held what a declined first plan had left there" : "that held the plan the arguments were read back from";
+        VF_COUNT("replan.requests");
         break;
     default:
         memset(q.tt, 0, sizeof(a_trajtrap));
         memset(q.tb, 0, sizeof(a_trajbell));
         (void)a_trajtrap_gen(q.tt, 2, 2, -2, 0, 50, 0, 0);
         (void)a_trajbell_gen(q.tb, 10, 5, 2, 0, 50, 0, 0);
+        q.prior = "that held an earlier cruise plan (0 -> 50)";
         VF_COUNT("context-reused-after-cruise-plan");
         break;
     }
@@ -539,7 +646,7 @@ static void run_request(int gen, double const in[7], vf_rng *r)
             else { VF_COUNT("trap.outside.generator-declined.reversed"); }
         }
         else { ok = 1; }
-        if (!ok) { exercise_unjudged(0, q.tt, ret); goto done; }
+        if (!ok) { if (q.replan) { VF_COUNT("replan.not-judged.outside-domain-or-declined"); } exercise_unjudged(0, q.tt, ret); goto done; }
         {
             a_trajtrap const *c = q.tt;
             q.T = ret;
@@ -556,10 +663,7 @@ static void run_request(int gen, double const in[7], vf_rng *r)
             q.C = C_TRAP;
             q.nb = 0;
             q.b[q.nb++] = 0; q.b[q.nb++] = c->ta; q.b[q.nb++] = c->td; q.b[q.nb++] = c->t;
-            if (c->ta == 0 && c->td == 0) { q.branch = TB_DECEL; }
-            else if (c->ta == c->td && c->td == c->t) { q.branch = TB_ACCEL; }
-            else if (c->ta == c->td) { q.branch = TB_ACCDEC; }
-            else { q.branch = TB_CRUISE; }
+            q.branch = trap_branch(c);
             q.limits = (fabs(c->vc) == vm ? 1u : 0u) | (fabs(c->v0) == vm ? 2u : 0u) | (fabs(c->v1) == vm ? 4u : 0u);
         }
     }
@@ -580,7 +684,7 @@ static void run_request(int gen, double const in[7], vf_rng *r)
             else { VF_COUNT("bell.outside.generator-declined.forward"); }
         }
         else { ok = 1; }
-        if (!ok) { exercise_unjudged(1, q.tb, ret); goto done; }
+        if (!ok) { if (q.replan) { VF_COUNT("replan.not-judged.outside-domain-or-declined"); } exercise_unjudged(1, q.tb, ret); goto done; }
         {
             a_trajbell const *c = q.tb;
             q.T = ret;
@@ -607,11 +711,7 @@ static void run_request(int gen, double const in[7], vf_rng *r)
             q.b[q.nb++] = c->t - c->td + c->tdj;
             q.b[q.nb++] = c->t - c->tdj;
             q.b[q.nb++] = c->t;
-            if (c->tv > 0) { q.branch = BB_CRUISE; }
-            else if (c->ta == 0 && c->taj == 0) { q.branch = BB_DECEL; }
-            else if (c->td == 0 && c->tdj == 0) { q.branch = BB_ACCEL; }
-            else if (c->am == am) { q.branch = BB_AMAX; }
-            else { q.branch = BB_REDUCED; }
+            q.branch = bell_branch(c, am);
             if (q.branch == BB_DECEL || q.branch == BB_ACCEL)
             {
                 /* single-phase branches: the jerk time is the difference jm*p - sqrt(jm*(jm*p^2 -+ ...)) divided by
@@ -624,6 +724,8 @@ static void run_request(int gen, double const in[7], vf_rng *r)
                        (c->am == am ? 8u : 0u) | (c->dm == -am ? 16u : 0u);
         }
     }
+    /* ---- twin clause (bitwise, needs no tolerance): the same request on a fresh garbage-filled context */
+    twin_fresh(&q, ret);
     /* ---- tolerance units */
     q.dt = sensitivity(&q);
     q.up = EPS * q.Sp + q.vhat * q.dt;
@@ -643,6 +745,7 @@ static void run_request(int gen, double const in[7], vf_rng *r)
            no finite tolerance can be derived, so the profile is counted but not judged */
         if (gen) { VF_COUNT("bell.not-judged.tolerance-unbounded"); }
         else { VF_COUNT("trap.not-judged.tolerance-unbounded"); }
+        if (q.replan) { VF_COUNT("replan.not-judged.tolerance-unbounded"); }
         exercise_unjudged(gen, gen ? (void *)q.tb : (void *)q.tt, ret);
         goto done;
     }
@@ -690,10 +793,21 @@ static void run_request(int gen, double const in[7], vf_rng *r)
     BR(1, BB_DECEL, "bell.branch.decel-only")
     BR(1, BB_ACCEL, "bell.branch.accel-only")
 #undef BR
+    if (q.replan)
+    {
+        char name[56];
+        if (differs < 0) { VF_COUNT("replan.judged.after-declined-first-plan"); }
+        else { VF_COUNT("replan-with-limits-read-back-from-context"); }
+        if (gen) { VF_COUNT("replan.bell.judged"); }
+        else { VF_COUNT("replan.trap.judged"); }
+        if (differs > 0) { VF_COUNT("replan.judged.first-plan-reached-differs-from-asked"); }
+        snprintf(name, sizeof(name), "replan.judged.%s", rv_name[variant]);
+        vf_count_dyn(name, 1);
+    }
     ++vf.evals;
     check_profile(&q, r);
     vf_distinct(vf_hash64(vf_hash64(vf_hash64(vf_hash64(14, (uint64_t)gen), (uint64_t)q.branch), (uint64_t)(q.dir + 1)), q.limits));
-    if (!vf.case_viol && !(seen_sample >> (gen * 8 + q.branch) & 1) && vf_want_sample())
+    if (!q.replan && !vf.case_viol && !(seen_sample >> (gen * 8 + q.branch) & 1) && vf.nsamples < 7) /* one of the 8 slots is kept for a read-back request */
     {
         char rq[200];
         double const *v = q.in;
@@ -711,6 +825,15 @@ static void run_request(int gen, double const in[7], vf_rng *r)
                       rq, q.T, branch_name[1][q.branch], q.tb->ta, q.tb->tv, q.tb->td, q.tb->taj, q.tb->tdj, q.tb->vm, q.tb->am, q.tb->dm,
                       q.C * q.up, q.C * q.uv, q.C * q.ua, q.dt, N_UNIFORM + N_RANDOM + 23);
         }
+    }
+    if (q.replan && !vf.case_viol && !(seen_sample >> 63) && vf_want_sample() && differs > 0 && variant == RV_EXACT)
+    {
+        seen_sample |= 1ull << 63;
+        vf_sample(gen ? "second request on a used context, arguments read back from the fields of the first plan: a_trajbell_gen(jm=%.9g am=%.9g vm=%.9g p0=%.9g p1=%.9g v0=%.9g v1=%.9g) "
+                        "-> T=%.9g branch=%s; all clauses against the limits of THIS request + bitwise equal to the plan on a fresh garbage-filled context: ok"
+                      : "second request on a used context, arguments read back from the fields of the first plan: a_trajtrap_gen(vm=%.9g ac=%.9g de=%.9g p0=%.9g p1=%.9g v0=%.9g v1=%.9g) "
+                        "-> T=%.9g branch=%s; all clauses against the limits of THIS request + bitwise equal to the plan on a fresh garbage-filled context: ok",
+                  in[0], in[1], in[2], in[3], in[4], in[5], in[6], q.T, branch_name[gen][q.branch]);
     }
 done:
     free(q.tt);
@@ -900,6 +1023,235 @@ static void make_bell(vf_rng *r, double in[7])
     }
 }
 
+/* ------------------------------------------------------------------ second request on a used context (seeded change C14-J)
+ * Both generators OVERWRITE the limit fields of the context with what the plan actually reaches: a_trajbell_gen leaves the reached
+ * acceleration of the run-up in ctx->am (braking side separately in ctx->dm) and the peak velocity in ctx->vm, a_trajtrap_gen the reached
+ * cruise velocity in ctx->vc and the reachable end velocity in ctx->v1.  A caller that reads the "limits" back from the context (a refresh
+ * helper, a settings dialog, a script binding: traj.am, traj.vm ..) therefore issues a request that is related bit for bit to the state the
+ * first plan left in the object - the one relation a random request never has, and exactly what a generator that consults the old contents
+ * of *ctx (a "same request as last time" shortcut, a phase time not recomputed, a clamp against the old limit) needs in order to go wrong.
+ * A sequence = first plan (drawn so that the reached values differ from the requested ones in most sequences) + one second request on the
+ * same object, built from the recorded fields (RV_*).  The second request is judged like any other request, against ITS limits, plus the
+ * twin clause.  First plans: trapezoid - cruise / accel-decel below vm / accel-only with an unreachable v1 / decel-only, asymmetric
+ * boundary velocities; bell - cruise with the run-up (or the braking side) below am and the other side harder, both sides below am, short
+ * moves (iterative reduction: am and vm both not reached), single-phase moves; plus the ordinary request mix; both directions. */
+static void first_trap(vf_rng *r, double in[7])
+{
+    unsigned style = (unsigned)vf_below(r, 8);
+    int dir = vf_chance(r, 1, 2) ? 1 : -1;
+    double vm, A, D, peak, v0, v1, d, p0, p1;
+    if (style >= 6) { make_trap(r, in); return; }
+    vm = vf_logu(r, -3, 3);
+    A = vf_logu(r, -3, 3);
+    D = vf_chance(r, 1, 4) ? A : vf_logu(r, -3, 3);
+    peak = style == 0 ? vm : vm * vf_uniform(r, 0.05, 1);
+    /* boundary velocities inside the peak; v1 further from the peak than v0 in two of three draws */
+    v0 = peak * vf_uniform(r, -0.2, 1);
+    v1 = vf_chance(r, 1, 3) ? 0 : peak * vf_uniform(r, -0.5, 1);
+    if (vf_chance(r, 2, 3) && fabs(v1) > fabs(v0)) { double t = v0; v0 = v1; v1 = t; }
+    d = (peak * peak - v0 * v0) / (2 * A) + (peak * peak - v1 * v1) / (2 * D);
+    switch (style)
+    {
+    case 0: d += vm * (vm / A + vm / D) * vf_logu(r, -3, 2); break; /* cruise at vm */
+    case 1: case 2: case 3: break; /* acceleration + deceleration, peak below vm: ctx->vc != vm */
+    case 4: /* acceleration only, requested |v1| above what the distance allows: ctx->v1 != v1 */
+        v0 = peak * vf_uniform(r, -0.2, 0.95);
+        d = (peak * peak - v0 * v0) / (2 * A);
+        v1 = vm * vf_uniform(r, peak / vm, 1);
+        break;
+    default: /* deceleration only, requested |v1| below what the distance allows */
+        v0 = peak;
+        v1 = peak * vf_unit(r);
+        d = (v0 * v0 - v1 * v1) / (2 * D);
+        v1 *= vf_chance(r, 1, 4) ? -vf_unit(r) : vf_unit(r);
+        break;
+    }
+    if (!(d > 0 && isfinite(d))) { d = vf_logu(r, -6, 6); }
+    place(r, d, dir, &p0, &p1);
+    in[0] = vm; in[1] = dir * A; in[2] = -dir * D; in[3] = p0; in[4] = p1; in[5] = dir * v0; in[6] = dir * v1;
+}
+
+static void first_bell(vf_rng *r, double in[7])
+{
+    unsigned style = (unsigned)vf_below(r, 10);
+    int dir = vf_chance(r, 1, 2) ? 1 : -1;
+    double jm, am, vm, d, v0, v1, p0, p1, ta, td, A;
+    if (style >= 8) { make_bell(r, in); return; }
+    jm = vf_logu(r, -3, 3); am = vf_logu(r, -3, 3); vm = vf_logu(r, -3, 3);
+    d = vf_logu(r, -6, 6);
+    v0 = pick_vel(r, vm); v1 = pick_vel(r, vm);
+    switch (style)
+    {
+    case 0: case 1: case 2:
+        /* cruise; the run-up does not need the acceleration limit ((vm-v0)*jm < am^2 -> ctx->am = jm*sqrt((vm-v0)/jm) < am), the braking side,
+           further away from vm, needs more (|ctx->dm| > ctx->am); style 2: the other way round */
+        if (am * am / jm > vm) { am = sqrt(vm * jm * vf_uniform(r, 0.05, 1)); }
+        A = am * am / jm;
+        v0 = vm - A * vf_uniform(r, 0.02, 0.98);
+        v1 = style == 0 ? 0 : vf_uniform(r, -vm, v0);
+        if (style == 2) { double t = v0; v0 = v1; v1 = t; }
+        bell_step1(jm, am, vm, v0, v1, &ta, &td);
+        d = vm * (0.5 * ta * (1 + v0 / vm) + 0.5 * td * (1 + v1 / vm)) * (1 + vf_logu(r, -3, 1.5));
+        break;
+    case 3:
+        /* cruise; the acceleration limit is out of reach on both sides (am^2 > 2 vm jm), the two sides reach different accelerations */
+        am = sqrt(2 * vm * jm) * vf_uniform(r, 1, 3);
+        v0 = vf_uniform(r, -vm, vm); v1 = vf_chance(r, 1, 3) ? 0 : vf_uniform(r, -vm, vm);
+        bell_step1(jm, am, vm, v0, v1, &ta, &td);
+        d = vm * (0.5 * ta * (1 + v0 / vm) + 0.5 * td * (1 + v1 / vm)) * (1 + vf_logu(r, -3, 1.5));
+        break;
+    case 4: case 5:
+        /* no cruise: neither vm nor (mostly) am reached -> ctx->vm = peak velocity, ctx->am = the reduced acceleration */
+        v0 = vf_chance(r, 1, 2) ? 0 : vm * vf_logu(r, -4, -0.3);
+        v1 = vf_chance(r, 1, 2) ? 0 : vm * vf_logu(r, -4, -0.3);
+        /* entering (leaving) against the direction of travel: the peak velocity the plan records may be below |v0| (|v1|) */
+        if (vf_chance(r, 1, 4)) { v0 = -vm * vf_unit(r); }
+        else if (vf_chance(r, 1, 4)) { v1 = -vm * vf_unit(r); }
+        bell_step1(jm, am, vm, v0, v1, &ta, &td);
+        d = vm * (0.5 * ta * (1 + v0 / vm) + 0.5 * td * (1 + v1 / vm)) * vf_logu(r, -3, -0.01);
+        if (style == 5) { d = am * am * am / (jm * jm) * vf_logu(r, -4, 0.5); }
+        if (!(d > 1e-9 && d < 1e9)) { d = vf_logu(r, -6, 0); }
+        break;
+    default:
+    {
+        /* single-phase moves: ctx->am or ctx->dm is 0, ctx->vm = v0 resp. the reached end velocity */
+        double hi = vf_chance(r, 1, 8) ? vm : vm * vf_unit(r), lo = vf_chance(r, 1, 8) ? 0 : hi * vf_unit(r), dm;
+        if (style & 1) { v0 = hi; v1 = lo; } else { v0 = lo; v1 = hi; }
+        dm = bell_dmin(jm, am, v0, v1);
+        if (dm > 0) { d = dm * (1 + vf_logu(r, -9, 0.7)); }
+        break;
+    }
+    }
+    if (!(d > 0 && isfinite(d))) { d = vf_logu(r, -6, 6); }
+    place(r, d, dir, &p0, &p1);
+    in[0] = jm; in[1] = am; in[2] = vm; in[3] = p0; in[4] = p1; in[5] = dir * v0; in[6] = dir * v1;
+}
+
+/* the second request: rb[] = the arguments read back from the fields of the context that carry the names of the parameters (trapezoid:
+   there is no vm field; the velocity the plan runs at is |ctx->vc|), in1[] = the first request */
+static void second_request(int gen, vf_rng *r, void const *ctx, double const in1[7], int variant, double in2[7])
+{
+    a_trajtrap const *t = (a_trajtrap const *)ctx;
+    a_trajbell const *b = (a_trajbell const *)ctx;
+    double rb[7], vm, d;
+    int k = (int)vf_below(r, 3); /* which limit */
+    if (gen) { rb[0] = b->jm; rb[1] = b->am; rb[2] = b->vm; rb[3] = b->p0; rb[4] = b->p1; rb[5] = b->v0; rb[6] = b->v1; }
+    else { rb[0] = fabs(t->vc); rb[1] = t->ac; rb[2] = t->de; rb[3] = t->p0; rb[4] = t->p1; rb[5] = t->v0; rb[6] = t->v1; }
+    memcpy(in2, rb, sizeof(rb));
+    vm = gen ? rb[2] : rb[0];
+    d = rb[4] - rb[3];
+    switch (variant)
+    {
+    case RV_EXACT: break;
+    case RV_LIMIT_X2: in2[k] = 2 * rb[k]; break;
+    case RV_LIMIT_HALF: in2[k] = 0.5 * rb[k]; break;
+    case RV_LIMIT_ULP: in2[k] = ulps(rb[k], vf_chance(r, 1, 2) ? 1 : -1); break;
+    case RV_P1_MOVED:
+        switch (vf_below(r, 5))
+        {
+        case 0: in2[4] = rb[3] + 2 * d; break;
+        case 1: in2[4] = rb[3] + 0.5 * d; break;
+        case 2: in2[4] = ulps(rb[4], 1); break;
+        case 3: in2[4] = ulps(rb[4], -1); break;
+        default: in2[4] = rb[3] + d * vf_logu(r, -1, 1); break;
+        }
+        break;
+    case RV_V1_CHANGED:
+        switch (vf_below(r, 6))
+        {
+        case 0: in2[6] = rb[6] == 0 ? 0.5 * vm * (d < 0 ? -1 : 1) : 0; break;
+        case 1: in2[6] = 0.5 * rb[6]; break;
+        case 2: in2[6] = -rb[6]; break;
+        case 3: in2[6] = vf_uniform(r, -vm, vm); break;
+        case 4: in2[6] = ulps(rb[6], vf_chance(r, 1, 2) ? 1 : -1); break;
+        default: in2[6] = in1[6]; break; /* the end velocity that had been asked for (differs from the recorded one in the single-phase trapezoid branches) */
+        }
+        break;
+    case RV_LIMITS_NEW_MOVE:
+    {
+        int dir = vf_chance(r, 1, 2) ? 1 : -1;
+        double nd = vf_chance(r, 1, 2) ? vf_logu(r, -6, 6) : fabs(d) * vf_logu(r, -2, 2);
+        if (!(nd > 0 && isfinite(nd))) { nd = 1; }
+        if (!gen && dir * d < 0) { in2[1] = -rb[1]; in2[2] = -rb[2]; } /* trapezoid: the signs of ac / de follow the direction of travel */
+        place(r, nd, dir, &in2[3], &in2[4]);
+        in2[5] = isfinite(vm) ? dir * pick_vel(r, fabs(vm)) : 0;
+        in2[6] = isfinite(vm) ? dir * pick_vel(r, fabs(vm)) : 0;
+        break;
+    }
+    case RV_BRAKE_SIDE:
+        /* the braking side of the recorded plan as the acceleration limit of the next one */
+        if (gen) { in2[1] = -b->dm; }
+        else { in2[1] = -t->de; }
+        break;
+    default: /* RV_ORIG_ONE_LIMIT: the first request once more, with one limit replaced by the value read back */
+        memcpy(in2, in1, sizeof(rb));
+        if (gen) { k = 1 + (k & 1); in2[k] = rb[k]; }
+        else { in2[0] = rb[0]; }
+        break;
+    }
+}
+
+static void replan_sequence(int gen, vf_rng *r)
+{
+    static unsigned char const pick[12] = {RV_EXACT, RV_EXACT, RV_EXACT, RV_EXACT, RV_LIMIT_X2, RV_LIMIT_HALF, RV_LIMIT_ULP, RV_P1_MOVED,
+                                           RV_V1_CHANGED, RV_LIMITS_NEW_MOVE, RV_BRAKE_SIDE, RV_ORIG_ONE_LIMIT};
+    size_t const n = gen ? sizeof(a_trajbell) : sizeof(a_trajtrap);
+    void *ctx = malloc(n); /* exact size */
+    double in1[7], in2[7], ret1;
+    int variant = pick[vf_below(r, 12)], differs, declined;
+    if (gen) { first_bell(r, in1); }
+    else { first_trap(r, in1); }
+    memset(ctx, vf_chance(r, 1, 2) ? 0 : 0x47, n);
+    vf_log("first plan on the context: %s(%a, %a, %a, %a, %a, %a, %a)", gen ? "a_trajbell_gen jm am vm p0 p1 v0 v1" : "a_trajtrap_gen vm ac de p0 p1 v0 v1",
+           in1[0], in1[1], in1[2], in1[3], in1[4], in1[5], in1[6]);
+    ret1 = call_gen(gen, ctx, in1);
+    VF_COUNT("replan.first-plans");
+    declined = !(ret1 > 0 && isfinite(ret1));
+    if (declined)
+    {
+        /* the context now holds whatever the declined call left there; the second request is then a variation of the first one */
+        VF_COUNT("replan.first-plan-declined");
+        differs = -1;
+        vf_log("first plan declined (returned %a); second request: variation '%s' of the first request on the same context", ret1, rv_name[variant]);
+        {
+            /* read-back of the fields is meaningless here: vary the request itself */
+            a_trajtrap t;
+            a_trajbell b;
+            memset(&t, 0, sizeof(t));
+            memset(&b, 0, sizeof(b));
+            t.vc = in1[0]; t.ac = in1[1]; t.de = in1[2]; t.p0 = in1[3]; t.p1 = in1[4]; t.v0 = in1[5]; t.v1 = in1[6];
+            b.jm = in1[0]; b.am = in1[1]; b.vm = in1[2]; b.p0 = in1[3]; b.p1 = in1[4]; b.v0 = in1[5]; b.v1 = in1[6]; b.dm = -in1[1];
+            second_request(gen, r, gen ? (void const *)&b : (void const *)&t, in1, variant, in2);
+        }
+    }
+    else
+    {
+        char name[56];
+        if (gen)
+        {
+            a_trajbell const *c = (a_trajbell const *)ctx;
+            differs = c->am != fabs(in1[1]) || c->vm != fabs(in1[2]);
+            snprintf(name, sizeof(name), "replan.first.bell.%s", branch_name[1][bell_branch(c, fabs(in1[1]))]);
+            if (c->am != fabs(in1[1])) { VF_COUNT("replan.first.bell.reached-am-differs-from-requested"); }
+            if (c->vm != fabs(in1[2])) { VF_COUNT("replan.first.bell.reached-vm-differs-from-requested"); }
+            if (c->tv > 0 && -c->dm > c->am) { VF_COUNT("replan.first.bell.cruise-braking-harder-than-run-up"); }
+        }
+        else
+        {
+            a_trajtrap const *c = (a_trajtrap const *)ctx;
+            differs = fabs(c->vc) != fabs(in1[0]) || c->v1 != in1[6];
+            snprintf(name, sizeof(name), "replan.first.trap.%s", branch_name[0][trap_branch(c)]);
+            if (fabs(c->vc) != fabs(in1[0])) { VF_COUNT("replan.first.trap.reached-vc-differs-from-vm"); }
+            if (c->v1 != in1[6]) { VF_COUNT("replan.first.trap.recorded-v1-differs-from-requested"); }
+        }
+        vf_count_dyn(name, 1);
+        vf_log("first plan returned %a; second request on the same context: '%s' built from the recorded fields", ret1, rv_name[variant]);
+        second_request(gen, r, ctx, in1, variant, in2);
+    }
+    run_request(gen, in2, r, ctx, variant, differs);
+    free(ctx);
+}
+
 static void vf_case(uint64_t case_no, vf_rng *r)
 {
     for (int i = 0; i < REQ_PER_CASE; ++i)
@@ -908,7 +1260,9 @@ static void vf_case(uint64_t case_no, vf_rng *r)
         int gen = (int)((case_no + (uint64_t)i) & 1);
         if (gen) { make_bell(r, in); }
         else { make_trap(r, in); }
-        run_request(gen, in, r);
+        run_request(gen, in, r, NULL, 0, 0);
     }
+    /* after the ordinary requests (their random stream is as it was before these were added) */
+    for (int i = 0; i < REPLAN_PER_CASE; ++i) { replan_sequence((int)((case_no + (uint64_t)i) & 1), r); }
     flush_clauses();
 }
